@@ -7,9 +7,14 @@ import (
 	"fmt"
 	"io"
 	"os"
+	"path/filepath"
 	"sort"
 	"strings"
+	"syscall"
 	"testing/iotest"
+	"time"
+
+	astisub "github.com/asticode/go-astisub"
 
 	"verif/sim/api"
 	"verif/sim/canon"
@@ -125,6 +130,24 @@ func structureOffsets(format string, data []byte) []int {
 func plansFor(d corpus.Doc, lim c17Limits, r *prng.R) []simio.ReadPlan {
 	n := len(d.Data)
 	var ps []simio.ReadPlan
+	if strings.HasPrefix(d.Name, "finalline-") || strings.HasPrefix(d.Name, "longline-") {
+		// threshold documents: what matters is where the end of the stream (or the 64 KiB mark) falls relative to a read
+		ps = append(ps, simio.ReadPlan{Name: "whole+eof", EOFWithData: true}, simio.ReadPlan{Name: "one-byte", Rest: 1},
+			simio.ReadPlan{Name: "one-byte+eof", Rest: 1, EOFWithData: true}, simio.ReadPlan{Name: "half", Half: true},
+			simio.ReadPlan{Name: "half+eof", Half: true, EOFWithData: true})
+		for _, m := range []int{4096, 4097, 65535, 65536, 65537} {
+			ps = append(ps, simio.ReadPlan{Name: "mtu", Rest: m}, simio.ReadPlan{Name: "mtu+eof", Rest: m, EOFWithData: true})
+		}
+		for _, k := range []int{n - 2, n - 1, n, 65535, 65536, 65537, n - 65536, n - 65537} {
+			if k >= 0 && k <= n {
+				ps = append(ps, simio.ReadPlan{Name: "split-aligned", Chunks: []int{k}}, simio.ReadPlan{Name: "split-aligned+eof", Chunks: []int{k}, EOFWithData: true})
+			}
+		}
+		for i := 0; i < lim.sampled/10; i++ {
+			ps = append(ps, simio.ReadPlan{Name: "split-sampled", Chunks: []int{r.Intn(n + 1)}, EOFWithData: r.Bool(0.5)})
+		}
+		return ps
+	}
 	// 1. single split points
 	if n <= lim.exhaustive {
 		for k := 0; k <= n; k++ {
@@ -303,7 +326,7 @@ func c17Docs(cfg Config, lim c17Limits) ([]corpus.Doc, error) {
 	// terminator or ending in a lone CR - whether EOF arrives with the last bytes or alone must not matter
 	for _, f := range []string{"srt", "vtt", "ssa"} {
 		base, _ := corpus.LongLineBase(f)
-		for _, L := range []int{65534, 65535, 65536, 65537} {
+		for _, L := range []int{65535, 65536, 65537} {
 			for _, end := range []string{"", "\r"} {
 				docs = append(docs, corpus.Doc{Name: fmt.Sprintf("finalline-%s-len%d-end%q", f, L, end), Format: f,
 					Data: append(append(append([]byte(nil), base...), bytes.Repeat([]byte("L"), L)...), end...), Cues: -1, Gen: true})
@@ -332,6 +355,9 @@ func RunC17(cfg Config) (*ShardResult, error) {
 	for di, d := range docs {
 		dh := canon.HashBytes(d.Data)
 		plans := plansFor(d, lim, root.Derive("plans-"+d.Name, di))
+		if key := Key64(dh, "open-kinds"); cfg.Mine(key) && !strings.Contains(d.Name, "~mut") {
+			res.Violations = append(res.Violations, c17OpenKinds(cfg, d, res)...)
+		}
 		for ri, reader := range corpus.ReaderConfigs(d.Format) {
 			// real reader types (optional interfaces: Seeker, ByteReader, WriterTo, ReaderAt, *os.File) against
 			// the simulated source delivering everything at once: the result is a function of the bytes alone
@@ -387,6 +413,104 @@ func RunC17(cfg Config) (*ShardResult, error) {
 		}
 	}
 	return res, nil
+}
+
+// c17OpenKinds goes through the file helper astisub.Open (real OS, not simulated; kernel pipe timing is not under
+// the simulator's control, so this is a cross-check, not a searched space): the same bytes stored in a regular
+// file and served through a named pipe (one write, and 7-byte writes) must parse to the same result.
+func c17OpenKinds(cfg Config, d corpus.Doc, res *ShardResult) (vs []Violation) {
+	// no .ts: an *os.File on a pipe offers Seek and fails it, so the demuxer's rewind fails there; seekability
+	// is part of the configuration that is held fixed (the failing-Seek configuration is C18's SeekFail case)
+	ext := map[string]string{"srt": ".srt", "vtt": ".vtt", "ssa": ".ssa", "stl": ".stl", "ttml": ".ttml"}[d.Format]
+	if ext == "" || len(d.Data) > 60000 {
+		return nil
+	}
+	dir, err := os.MkdirTemp(cfg.Scratch, "c17open-")
+	if err != nil {
+		return nil
+	}
+	defer os.RemoveAll(dir)
+	open := func(path string) (canon.Outcome, bool) {
+		type r struct{ o canon.Outcome }
+		ch := make(chan r, 1)
+		go func() {
+			var o canon.Outcome
+			func() {
+				defer func() {
+					if p := recover(); p != nil {
+						o = canon.Outcome{Class: "panic", Err: fmt.Sprint(p)}
+					}
+				}()
+				s, err := astisub.Open(astisub.Options{Filename: path})
+				if err != nil {
+					o = canon.Outcome{Class: "error", Err: err.Error()}
+					return
+				}
+				o = canon.Outcome{Class: "ok", Canon: canon.Bytes(s), Items: len(s.Items)}
+			}()
+			ch <- r{o}
+		}()
+		select {
+		case x := <-ch:
+			return x.o, true
+		case <-time.After(20 * time.Second):
+			return canon.Outcome{}, false
+		}
+	}
+	reg := filepath.Join(dir, "regular"+ext)
+	if err := os.WriteFile(reg, d.Data, 0o644); err != nil {
+		return nil
+	}
+	ref, ok := open(reg)
+	if !ok {
+		res.Notes = append(res.Notes, "open-kinds: Open of a regular file did not return within 20 s: "+d.Name)
+		return nil
+	}
+	for _, chunk := range []int{0, 7} {
+		fifo := filepath.Join(dir, fmt.Sprintf("pipe%d%s", chunk, ext))
+		if err := syscall.Mkfifo(fifo, 0o644); err != nil {
+			res.Notes = append(res.Notes, "open-kinds skipped: mkfifo: "+err.Error())
+			return vs
+		}
+		go func() { // the other end of the pipe
+			f, err := os.OpenFile(fifo, os.O_WRONLY, 0)
+			if err != nil {
+				return
+			}
+			defer f.Close()
+			b := d.Data
+			for len(b) > 0 {
+				n := len(b)
+				if chunk > 0 && n > chunk {
+					n = chunk
+				}
+				if _, err := f.Write(b[:n]); err != nil {
+					return
+				}
+				b = b[n:]
+			}
+		}()
+		o, ok := open(fifo)
+		if !ok {
+			res.Notes = append(res.Notes, "open-kinds: Open of a named pipe did not return within 20 s: "+d.Name)
+			// unblock a writer that is still waiting for a reader
+			if f, err := os.OpenFile(fifo, os.O_RDONLY|syscall.O_NONBLOCK, 0); err == nil {
+				f.Close()
+			}
+			continue
+		}
+		res.Evaluations++
+		res.Probes["open_named_pipe_real_os"]++
+		if o.Key() != ref.Key() {
+			sc, _ := json.Marshal(ReadScenario{Doc: d.Name, Reader: d.Format, Data: d.Data, Plan: simio.ReadPlan{Name: "open-kinds"}})
+			vs = append(vs, Violation{Property: "C17", Class: "result-differs",
+				Signature: fmt.Sprintf("C17 Open(%s) named-pipe regular=%s pipe=%s", ext, ref.Class, o.Class),
+				Detail:    fmt.Sprintf("doc=%s (%d bytes): astisub.Open of a regular file -> %s items=%d; of a named pipe serving the same bytes (writes of %d bytes, 0 = one write) -> %s items=%d err=%q", d.Name, len(d.Data), ref.Class, ref.Items, chunk, o.Class, o.Items, trunc(o.Err, 160)),
+				Scenario:  sc})
+			break
+		}
+	}
+	return vs
 }
 
 // c17RealReaders runs the reader on standard-library reader types holding the same bytes.
@@ -481,6 +605,13 @@ func c17Probes(res *ShardResult, d corpus.Doc, p simio.ReadPlan, sr *simio.Reade
 // CheckReadScenario re-evaluates one scenario (replay, minimisation).
 // It returns a violation or nil.
 func CheckReadScenario(sc ReadScenario) *Violation {
+	if sc.Plan.Name == "open-kinds" {
+		res := NewShardResult()
+		if vs := c17OpenKinds(Config{Scratch: os.TempDir()}, corpus.Doc{Name: sc.Doc, Format: sc.Reader, Data: sc.Data}, res); len(vs) > 0 {
+			return &vs[0]
+		}
+		return nil
+	}
 	if strings.HasPrefix(sc.Plan.Name, "real:") {
 		res := NewShardResult()
 		for _, v := range c17RealReaders(Config{Scratch: os.TempDir()}, sc.Reader, corpus.Doc{Name: sc.Doc, Data: sc.Data}, res) {
